@@ -119,7 +119,7 @@ pub fn balanced(v: &SetupV, holder_total: u64, out: Vec<H>, inc: Vec<H>, feerate
     let fee = feerate as u64 * commitment_weight(v.anchors, n) / 1000 + if v.anchors { 660 } else { 0 };
     let out_sum: u64 = out.iter().map(|h| h.value_sat).sum();
     let inc_sum: u64 = inc.iter().map(|h| h.value_sat).sum();
-    let cp_total = v.value - holder_total;
+    let cp_total = v.value.saturating_sub(holder_total);
     let (mut to_holder, mut to_cp) = (holder_total.saturating_sub(out_sum), cp_total.saturating_sub(inc_sum));
     if v.outbound {
         to_holder = to_holder.saturating_sub(fee);
@@ -131,7 +131,7 @@ pub fn balanced(v: &SetupV, holder_total: u64, out: Vec<H>, inc: Vec<H>, feerate
 
 pub fn initial_holder_total(v: &SetupV) -> u64 {
     if v.outbound {
-        v.value - v.push_msat / 1000
+        v.value.saturating_sub(v.push_msat / 1000)
     } else {
         v.push_msat / 1000
     }
@@ -165,7 +165,7 @@ impl Chan {
     pub fn approve_out(&self, c: &Content) -> Result<(), String> {
         for h in &c.out {
             let node = self.w.node.clone();
-            let (hash, amt) = (pay_hash(h.hash), h.value_sat * 1000);
+            let (hash, amt) = (pay_hash(h.hash), h.value_sat.saturating_mul(1000));
             let payee = PublicKey::from_secret_key(&secp(), &sk(201));
             match call(move || node.add_keysend(payee, hash, amt).map_err(|e| status_kind(&e))) {
                 Outcome::Ok(_) => {}
